@@ -1,0 +1,30 @@
+//go:build verif
+
+package mpx
+
+// verifDirty returns a bitmask of what a recycled channel state still carries (0 = clean).
+func (s *channelState) verifDirty() int64 {
+	var m int64
+	if s.ctx != nil || s.conn != nil {
+		m |= 1
+	}
+	if s.opened.Load() || s.closed.Load() || s.closedUser.Load() {
+		m |= 2
+	}
+	if s.sendWindow.Load() != 0 || s.initWindow != 0 {
+		m |= 4
+	}
+	if s.recvBytes.Load() != 0 {
+		m |= 8
+	}
+	if len(s.sendWindowWait) != 0 {
+		m |= 16
+	}
+	if s.sendWindowWait == nil {
+		m |= 32
+	}
+	if _, ok, st := s.recvQueue.Read(); ok || !st.OK() {
+		m |= 64 // a pending message or a closed queue
+	}
+	return m
+}
